@@ -410,11 +410,34 @@ func TestVerif_C19(t *testing.T) {
 					continue
 				}
 				var got []string
+				placeholders, badMsg := 0, ""
 				for _, r := range st.Got {
 					if r.Transaction == nil || len(r.Transaction.Transaction) == 0 {
-						continue // placeholder
+						placeholders++ // the "nothing found" marker
+						continue
 					}
-					got = append(got, sigOf(r.Transaction.Transaction).String()[:8])
+					sg := sigOf(r.Transaction.Transaction)
+					got = append(got, sg.String()[:8])
+					// the message says in which slot and at which position its transaction is archived
+					for _, tx := range all {
+						if tx.Sig == sg && badMsg == "" {
+							if r.Slot != tx.Slot {
+								badMsg = fmt.Sprintf("transaction %s is archived in slot %d, its message says slot %d", sg.String()[:8], tx.Slot, r.Slot)
+							} else if r.Index != nil && *r.Index != uint64(tx.Pos) {
+								badMsg = fmt.Sprintf("transaction %s is archived at position %d, its message says %d", sg.String()[:8], tx.Pos, *r.Index)
+							}
+						}
+					}
+				}
+				path0 := "scan"
+				if withIdx && !f.NoFilter && f.Include != 0 {
+					path0 = "index"
+				}
+				if serr == nil && badMsg != "" {
+					R.Violation(fmt.Sprintf("C19|StreamTransactions|%s|message-slot-or-position", path0), fmt.Sprintf("StreamTransactions[%d,%d] filter={%s} index_loaded=%v: %s", rg.start, rg.end, c19Key(f), withIdx, badMsg), q)
+				}
+				if serr == nil && placeholders > 0 && len(got) > 0 {
+					R.Violation(fmt.Sprintf("C19|StreamTransactions|%s|empty-message-next-to-transactions", path0), fmt.Sprintf("StreamTransactions[%d,%d] filter={%s} index_loaded=%v: %d transactions were streamed and %d message(s) without a transaction (the marker for 'nothing found')", rg.start, rg.end, c19Key(f), withIdx, len(got), placeholders), q)
 				}
 				results[withIdx] = fmt.Sprint(got)
 				R.Case(len(wantAny) > 0 && len(wantAny) < inRange, "")
